@@ -562,4 +562,4 @@ Definition t_list (max off : Z) : tquery := mkQ OTriples (mkLO max None None fal
 Definition t_exist (x : N) : tquery := mkQ OExist default_lo [x].
 
 (* The key function of the CURRENT tree (follows /repo: key_v0 before fix F16, key_v1 after it). *)
-Definition key_cur {arg : Type} : cquery arg -> ckey arg := key_v0.
+Definition key_cur {arg : Type} : cquery arg -> ckey arg := key_v1.
